@@ -22,8 +22,8 @@ from pvm.gen import grids as gg
 from pvm.gen import mdg as gm
 
 PROP = "C39"
-N = {"quick": 1000, "thorough": 30000}
-WORKERS = {"quick": 3, "thorough": 16}
+N = {"quick": 500, "thorough": 30000}
+WORKERS = {"quick": 4, "thorough": 16}
 TIMEOUT = {"quick": 300, "thorough": 3000}
 CASE_TIMEOUT = 120.0
 RULE = ("grid: seeded plain recipe (1-3-D, all kinds of pvm.gen.grids) or one subdomain of "
